@@ -280,6 +280,11 @@ class TreeStruct:
     def pred(self, ref):
         return z3.Or(WFN(ref), WFR(ref), IS_CHILDREN(ref))
 
+    def active(self, st):
+        # only functions that assume something about parsed trees can depend on their structure
+        return any(isinstance(k, str) and k.startswith("wf_axioms_") for k in st.ghost) or \
+            any(isinstance(k, tuple) and k and k[0] == "fd" for k in st.ghost)
+
     def base_axioms(self, eng, st):
         if st.ghost.get("treestruct_axioms"):
             return
